@@ -476,6 +476,14 @@ func (vfs *MemFS) MkdirAll(path string, perm fs.FileMode) error {
 		return nil
 	case *fileNode:
 		return &fs.PathError{Op: op, Path: pi.LeftPart(), Err: vfs.err.NotADirectory}
+	case *symlinkNode:
+		// the walk stopped on a symbolic link : too many levels of symbolic links.
+		// As the last element of the path the link is an existing entry that is not a directory.
+		if pi.IsLast() {
+			err = vfs.err.FileExists
+		}
+
+		return &fs.PathError{Op: op, Path: path, Err: err}
 	}
 
 	parent.mu.Lock()
